@@ -336,6 +336,33 @@ def run_one(ns, i, seed_i, tier):
     else:
         states.add("fail|%s" % obs0["status"])
 
+    # rebuild over the leftovers of an earlier, longer build: every output path already holds a file that
+    # STARTS with the new content and continues with a stale tail (or is longer for other reasons);
+    # after the rebuild each output must be exactly the container again
+    if obs0["status"] == 0 and not violations and not obs0["natural_io"] and rng.random() < 0.35:
+        files2 = dict(op["files"])
+        touched = []
+        for o in case["outs"]:
+            pth = o["path"]
+            if pth == "-" or pth not in obs0["fs_after"] or pth in op["files"] and pth in [f.path for f in case["prog"].files]:
+                continue
+            good = obs0["fs_after"][pth]
+            files2[pth] = good + rng.choice([b"\x00", b"STALE TAIL FROM AN EARLIER BUILD", b"\xff" * 700])
+            touched.append(pth)
+        if touched:
+            op2 = dict(op, files=files2)
+            obs2 = run(ns, op2)
+            account(obs2, "rebuild")
+            counters["probe:rebuild_over_longer_stale_file"] = 1
+            if obs2["status"] != obs0["status"]:
+                record([("rebuild-changes-exit", "the same build over leftover output files exits %r instead of %r" % (obs2["status"], obs0["status"]))], op2, "rebuild over longer stale outputs")
+            else:
+                for pth in touched:
+                    if obs2["fs_after"].get(pth) != obs0["fs_after"][pth]:
+                        record([("stale-tail-survives", "output %s was rebuilt over a longer file that began with the same bytes: it now holds %d bytes instead of %d (stale tail kept)"
+                                 % (pth, len(obs2["fs_after"].get(pth) or b""), len(obs0["fs_after"][pth])))], op2, "rebuild over longer stale outputs")
+                        break
+
     # write-fault configurations
     sites = [f for f in c07.fault_sites(obs0) if f["seam"] in OUTPUT_SEAMS]
     if sites and not violations and obs0["status"] == 0:
